@@ -129,6 +129,10 @@ pub enum Ctx {
     Callee,
     GenBody,
     NativeCb,
+    /// the entry expression sits inside a catch block that is handling another error
+    InCatch,
+    /// … inside a finally block
+    InFinally,
 }
 
 #[derive(Clone, Debug)]
@@ -403,6 +407,22 @@ pub fn render(spec: &Spec) -> Scenario {
                 defs.extend(def_fn(&name, "", &body));
                 vec![format!("for v in {name}()"), "  mark(1)".to_string()]
             }
+            Ctx::InCatch => {
+                let mut v = vec!["try".to_string(), "  throw 'first'".to_string(), "catch e0".to_string()];
+                v.extend(indent(&entry));
+                v
+            }
+            Ctx::InFinally => {
+                let mut v = vec![
+                    "try".to_string(),
+                    "  mark(7)".to_string(),
+                    "catch e0".to_string(),
+                    "  mark(8)".to_string(),
+                    "finally".to_string(),
+                ];
+                v.extend(indent(&entry));
+                v
+            }
             Ctx::NativeCb => {
                 let name = format!("n{level}");
                 defs.extend(def_fn(&name, "i", &entry));
@@ -511,13 +531,15 @@ pub fn gen_spec(seed: u64) -> Spec {
     };
     let mut contexts = vec![];
     for _ in 0..nctx {
-        contexts.push(match s.below(10) {
+        contexts.push(match s.below(12) {
             0..=2 => Ctx::Try,
             3 => Ctx::TryFinally,
             4..=6 => Ctx::Retry(s.range(2, 8) as u8),
             7 => Ctx::Callee,
             8 => Ctx::GenBody,
-            _ => Ctx::NativeCb,
+            9 => Ctx::NativeCb,
+            10 => Ctx::InCatch,
+            _ => Ctx::InFinally,
         });
     }
 
@@ -1068,6 +1090,15 @@ pub fn evaluate(sc: &Scenario, clock: &Rc<VClock>, scratch: &Scratch) -> Eval {
         Some(execute(sc, false, clock, scratch))
     } else {
         None
+    };
+    // a terminating control executes at most the instruction sequence of its no-limit run
+    let mut sc_limited;
+    let sc = if let Some(r) = &reference {
+        sc_limited = sc.clone();
+        sc_limited.step_cap = sc.step_cap.max(r.instructions + 10_000);
+        &sc_limited
+    } else {
+        sc
     };
     let run = execute(sc, true, clock, scratch);
     let violation = check(sc, &run, reference.as_ref());
